@@ -139,20 +139,20 @@ theorem allVisit_append (pred : Key → Bool) (a b : List Key) :
 
 theorem forEachKeyLoop_cons (pred : Key → Bool) (x : Ms) (xs : List Ms) :
     forEachKeyLoop pred (x :: xs) =
-      if (allVisit pred x.nodeKeys).2 then
-        ((allVisit pred x.nodeKeys).1 ++ (forEachKeyLoop pred xs).1, (forEachKeyLoop pred xs).2)
-      else ((allVisit pred x.nodeKeys).1, false) := by
+      if (allVisit pred x.keysAt).2 then
+        ((allVisit pred x.keysAt).1 ++ (forEachKeyLoop pred xs).1, (forEachKeyLoop pred xs).2)
+      else ((allVisit pred x.keysAt).1, false) := by
   cases x
-  case pkK k => cases h : pred k <;> simp [forEachKeyLoop, Ms.nodeKeys, allVisit, h]
-  case pkH k => cases h : pred k <;> simp [forEachKeyLoop, Ms.nodeKeys, allVisit, h]
-  case multi k ks => simp only [forEachKeyLoop, Ms.nodeKeys]; rfl
-  case sortedMulti k ks => simp only [forEachKeyLoop, Ms.nodeKeys]; rfl
-  case multiA k ks => simp only [forEachKeyLoop, Ms.nodeKeys]; rfl
-  case sortedMultiA k ks => simp only [forEachKeyLoop, Ms.nodeKeys]; rfl
-  all_goals simp [forEachKeyLoop, Ms.nodeKeys, allVisit]
+  case pkK k => cases h : pred k <;> simp [forEachKeyLoop, Ms.keysAt, allVisit, h]
+  case pkH k => cases h : pred k <;> simp [forEachKeyLoop, Ms.keysAt, allVisit, h]
+  case multi k ks => simp only [forEachKeyLoop, Ms.keysAt]; rfl
+  case sortedMulti k ks => simp only [forEachKeyLoop, Ms.keysAt]; rfl
+  case multiA k ks => simp only [forEachKeyLoop, Ms.keysAt]; rfl
+  case sortedMultiA k ks => simp only [forEachKeyLoop, Ms.keysAt]; rfl
+  all_goals simp [forEachKeyLoop, Ms.keysAt, allVisit]
 
 theorem forEachKeyLoop_eq (pred : Key → Bool) (l : List Ms) :
-    forEachKeyLoop pred l = allVisit pred (l.flatMap Ms.nodeKeys) := by
+    forEachKeyLoop pred l = allVisit pred (l.flatMap Ms.keysAt) := by
   induction l with
   | nil => rfl
   | cons x xs ih => rw [forEachKeyLoop_cons, List.flatMap_cons, allVisit_append, ih]
@@ -266,21 +266,21 @@ theorem iterNodes_eq (ms : Ms) : ms.iterNodes = ms.pre := by
   simp only [remaining, List.flatMap_nil, List.append_nil]
   rw [← Ms.pre_length ms, List.take_length]
 
-theorem getNthPk_eq (ms : Ms) (n : Nat) : ms.getNthPk n = ms.nodeKeys[n]? := by
-  cases ms <;> simp [Ms.getNthPk, Ms.nodeKeys] <;> (cases n <;> simp)
+theorem getNthPk_eq (ms : Ms) (n : Nat) : ms.getNthPk n = ms.keysAt[n]? := by
+  cases ms <;> simp [Ms.getNthPk, Ms.keysAt] <;> (cases n <;> simp)
 
 theorem pkIterNode_eq (node : Ms) : ∀ (fuel idx : Nat),
-    pkIterNode node fuel idx = (node.nodeKeys.drop idx).take fuel
+    pkIterNode node fuel idx = (node.keysAt.drop idx).take fuel
   | 0, _ => by simp [pkIterNode]
   | fuel + 1, idx => by
-    rw [pkIterNode, getNthPk_eq, drop_getElem? node.nodeKeys idx]
-    cases node.nodeKeys[idx]? with
+    rw [pkIterNode, getNthPk_eq, drop_getElem? node.keysAt idx]
+    cases node.keysAt[idx]? with
     | none => simp
     | some pk => simp [pkIterNode_eq node fuel (idx + 1), List.take_succ_cons]
 
 /-- `ms.iter_pk()` yields the keys in pre-order -/
-theorem iterPk_eq (ms : Ms) : ms.iterPk = ms.keys := by
-  unfold Ms.iterPk Ms.keys
+theorem iterPk_eq (ms : Ms) : ms.iterPkLit = ms.keys := by
+  unfold Ms.iterPkLit Ms.keys
   rw [iterNodes_eq]
   congr 1; funext node
   rw [pkIterNode_eq]
@@ -289,22 +289,22 @@ theorem iterPk_eq (ms : Ms) : ms.iterPk = ms.keys := by
 
 mutual
 theorem keysPre_mapKeys (f : Key → Key) (g : HashKind → Nat → Nat) : (ms : Ms) →
-    (ms.mapKeys f g).pre.flatMap Ms.nodeKeys = (ms.pre.flatMap Ms.nodeKeys).map f
+    (ms.mapKeys f g).pre.flatMap Ms.keysAt = (ms.pre.flatMap Ms.keysAt).map f
   | .tru | .fls | .rawPkH _ | .after _ | .older _ | .pkK _ | .pkH _ | .hash _ _ => by
-    simp [Ms.mapKeys, Ms.pre, Ms.nodeKeys]
+    simp [Ms.mapKeys, Ms.pre, Ms.keysAt]
   | .multi _ _ | .sortedMulti _ _ | .multiA _ _ | .sortedMultiA _ _ => by
-    simp [Ms.mapKeys, Ms.pre, Ms.nodeKeys]
+    simp [Ms.mapKeys, Ms.pre, Ms.keysAt]
   | .alt x | .swap x | .check x | .dupIf x | .verify x | .nonZero x | .zeroNotEqual x => by
-    simp [Ms.mapKeys, Ms.pre, Ms.nodeKeys, keysPre_mapKeys f g x]
+    simp [Ms.mapKeys, Ms.pre, Ms.keysAt, keysPre_mapKeys f g x]
   | .andV l r | .andB l r | .orB l r | .orD l r | .orC l r | .orI l r => by
-    simp [Ms.mapKeys, Ms.pre, Ms.nodeKeys, List.flatMap_append, keysPre_mapKeys f g l,
+    simp [Ms.mapKeys, Ms.pre, Ms.keysAt, List.flatMap_append, keysPre_mapKeys f g l,
       keysPre_mapKeys f g r]
   | .andOr a b c => by
-    simp [Ms.mapKeys, Ms.pre, Ms.nodeKeys, List.flatMap_append, keysPre_mapKeys f g a,
+    simp [Ms.mapKeys, Ms.pre, Ms.keysAt, List.flatMap_append, keysPre_mapKeys f g a,
       keysPre_mapKeys f g b, keysPre_mapKeys f g c]
-  | .thresh _ xs => by simp [Ms.mapKeys, Ms.pre, Ms.nodeKeys, keysPre_mapKeys_list f g xs]
+  | .thresh _ xs => by simp [Ms.mapKeys, Ms.pre, Ms.keysAt, keysPre_mapKeys_list f g xs]
 theorem keysPre_mapKeys_list (f : Key → Key) (g : HashKind → Nat → Nat) : (xs : MsList) →
-    (xs.mapKeys f g).pre.flatMap Ms.nodeKeys = (xs.pre.flatMap Ms.nodeKeys).map f
+    (xs.mapKeys f g).pre.flatMap Ms.keysAt = (xs.pre.flatMap Ms.keysAt).map f
   | .nil => rfl
   | .cons x xs => by
     simp [MsList.mapKeys, MsList.pre, List.flatMap_append, keysPre_mapKeys f g x,
